@@ -19,6 +19,7 @@ func init() {
 		ID: "C07",
 		Explanation: "Spec-derived structural conditions of C07 (these are necessary conditions on the shape of the canonicalizer, NOT the input/output relation, which needs differential testing against an independent RFC 8785 implementation): (err.flow) every error value produced inside Transform and its closures is handed to checkError, the only writer of the captured error variable that Transform returns; canonicalizer.MarshalCanonical returns Transform's result of the (marshalled) value; (reject.sites) the rejections the statement lists exist as setError sites guarded by their condition — duplicate member (equal length after a common prefix), raw control character (< 0x20) in a string, unknown escape (escape table exhausted), missing low surrogate, premature end of input, non-whitespace trailing content; " +
 			"(tables) the two escape tables have equal length and pair exactly the RFC 8259 §7 escapes; control characters use \\u%04x; (es6.switch) NumberToJSON rejects NaN/Inf by the exponent bit pattern, maps ±0 to \"0\" by a value comparison, and selects fixed notation exactly for 1e-6 ≤ |x| < 1e21; (sortkey) member names are ordered by the uint16 code units of utf16.Encode of the name's runes; the ordering function returns true on the first smaller unit, false on the first larger, shorter-prefix-first otherwise; new members are inserted before the first member they precede and appended otherwise; (det) no map iteration in the canonicalizer. " +
+			"(number.route) every return of the literal/number closure is a JSON literal equal to the token or NumberToJSON(strconv.ParseFloat(token, 64)) — no number token is emitted as written; (sortkey.nf) the ordering function is evaluated over the three orderings of the two code units per loop-iteration path and of the two lengths per exit path (a subtraction is accepted only when signed and wider than the units; same index on both keys); " +
 			"Not decided: the RFC 8785 serialization equality for any input (number shortest round-trip, ordering on all keys, idempotence); reversed surrogate pairs and non-JSON number spellings accepted through strconv.ParseFloat (recorded in DESIGN.md section 5 as observed, not decidable structurally).",
 		Run: runC07,
 	})
